@@ -29,7 +29,8 @@ RULE = ("histories = 1-2 batch_run calls (sometimes the very same call twice) on
         "max_steps x period; churn between collects; all pairs of parameter shapes), 40 cases of churn between collects, 40 cases of "
         "explicit collection patterns (gaps and duplicates), 6 SCALE cases (max_steps 255/256/257/258/300/512/1000 with periods 1, 2, 7, 50, "
         "64, 100, 128, 256, 257, 300, -1 and early stops at 256..512 on tiny models; designs of 200-600 runs; scalar parameters as numpy "
-        "scalars and bools); 4 (quick) / "
+        "scalars and bools), 24 cases with USER CLASSES as parameter values (sequence-protocol only, __iter__ only, one-shot iterator, both, "
+        "mapping-like: swept element by element / key by key; str subclass and sized-but-not-iterable object incl. a falsy one: one value); 4 (quick) / "
         "40 (thorough) calls with number_processes 2-3 run in a helper process and compared with the serial call and row by row "
         "with their run; the multiset of rows is observed; non-trivial = at least 2 rows; distinct = by SHA1")
 TRUSTED_BASE = [
